@@ -465,3 +465,268 @@ Proof.
   - apply (i_q s I) in E. destruct (i_drained s I t0) as [_ Hq]; auto. unfold qof in *. rewrite Hq in E. destruct E.
   - right. right. exists u. split; auto. apply (i_bridged s I). exact E.
 Qed.
+
+(* ====== stability lemmas; surplus and late offers ====== *)
+
+Ltac unf := unfold pl_step, pl_step_work, pl_step_user, pl_step_teardown, pl_step_timer, pl_user_close, ch_try_send, ch_try_recv.
+
+Ltac hyp := repeat match goal with
+  | H : (if ?x then _ else _) = _ |- _ => destruct x eqn:?
+  | H : (match ?x with _ => _ end) = _ |- _ => destruct x eqn:?
+  | H : (_, _) = (_, _) |- _ => inversion H; subst; clear H
+  end.
+
+Lemma closed_stable cfg s t : ch_closed (ps_ch s) = true -> ch_closed (ps_ch (pl_step cfg s t)) = true.
+Proof. intros H. unf. brk; hyp; simpl in *; try congruence. Qed.
+
+Lemma work_thr_other cfg s t t' p : ps_thr s t = TW p -> t' <> t -> ps_thr (pl_step cfg s t') t = TW p.
+Proof.
+  intros H N. unf. brk; hyp; simpl; unfold upd;
+    repeat match goal with |- context [Nat.eqb ?a ?b] => destruct (Nat.eqb_spec a b); subst end; try congruence.
+Qed.
+
+Lemma closed_fate_final cfg s t c : Inv s -> ps_fate s c = PClosed -> ps_fate (pl_step cfg s t) c = PClosed.
+Proof.
+  intros I H.
+  assert (Hq : forall r, ch_q (ps_ch s) = c :: r -> False).
+  { intros r E. assert (In c (qof s)) as Hin by (unfold qof; rewrite E; left; auto). apply (i_q s I) in Hin. congruence. }
+  assert (Hh : forall t0, pl_holds t0 (ps_thr s t0) c = true -> False).
+  { intros t0 E. apply (i_held s I) in E. congruence. }
+  unf. brk; hyp; simpl; unfold upd;
+    repeat match goal with |- context [Nat.eqb ?a ?b] => destruct (Nat.eqb_spec a b); subst end; auto;
+    try (exfalso; eapply Hq; eauto; fail); try discriminate;
+    try (exfalso; apply (Hh t); match goal with E : ps_thr s t = _ |- _ => rewrite E end; simpl; apply Nat.eqb_refl).
+Qed.
+
+(* ---------- surplus and late offers ---------- *)
+
+(* the three refusals of an offered connection: unknown run id, full pool, closed pool *)
+Theorem offer_refused cfg s t :
+  (ps_thr s t = TW WLookup /\ ps_mapped s = false) \/
+  (ps_thr s t = TW WSend /\ (ch_closed (ps_ch s) = true \/ ch_cap (ps_ch s) <= pl_pool_len s)) ->
+  let s1 := pl_step cfg s t in
+  ps_thr s1 t = TW WCloseIt /\ ps_ch s1 = ps_ch s /\ ps_fate s1 = ps_fate s.
+Proof.
+  intros [[Ht Hm]|[Ht Hf]]; unfold pl_step; rewrite Ht; simpl.
+  - rewrite Hm. simpl. unfold upd. rewrite Nat.eqb_refl. auto.
+  - unfold ch_try_send. destruct (ch_closed (ps_ch s)) eqn:Ec.
+    + simpl. unfold upd. rewrite Nat.eqb_refl. auto.
+    + destruct Hf as [Hf|Hf]; [discriminate|]. unfold pl_pool_len in Hf.
+      destruct (Z.of_nat (length (ch_q (ps_ch s))) <? ch_cap (ps_ch s)) eqn:El; [lia|].
+      simpl. unfold upd. rewrite Nat.eqb_refl. auto.
+Qed.
+
+(* a refused connection is closed as soon as its goroutine runs, whatever else runs in between, and stays closed *)
+Theorem refused_is_closed cfg sched1 sched2 t :
+  let s1 := pl_exec cfg sched1 in
+  ps_thr s1 t = TW WCloseIt -> In t sched2 ->
+  let s2 := pl_run cfg sched2 s1 in
+  ps_fate s2 t = PClosed /\ ps_thr s2 t = TW WDone.
+Proof.
+  intros s1 Ht Hin. pose proof (exec_inv cfg sched1) as I. fold s1 in I. clearbody s1.
+  revert s1 Ht I Hin. induction sched2 as [|x r IH]; intros s1 Ht I Hin; [destruct Hin|].
+  simpl. destruct (Nat.eq_dec x t) as [->|N].
+  - (* t runs: closes *)
+    assert (Hs : ps_fate (pl_step cfg s1 t) t = PClosed /\ ps_thr (pl_step cfg s1 t) t = TW WDone).
+    { unfold pl_step. rewrite Ht. simpl. unfold upd. rewrite Nat.eqb_refl. auto. }
+    destruct Hs as [Hf Hd]. pose proof (step_inv cfg s1 t I) as I1.
+    clear Ht Hin IH. revert I1 Hf Hd. generalize (pl_step cfg s1 t). clear s1 I.
+    induction r as [|y r IH]; intros s If Hf Hd; simpl; auto.
+    apply IH; [apply step_inv; auto|apply closed_fate_final; auto|].
+    destruct (Nat.eq_dec y t) as [->|N].
+    + unfold pl_step. rewrite Hd. simpl. exact Hd.
+    + eapply work_thr_other; eauto.
+  - destruct Hin as [E|Hin]; [congruence|]. apply IH; auto.
+    + eapply work_thr_other; eauto.
+    + apply step_inv; auto.
+Qed.
+
+(* a connection that arrives once the pool has been closed (session ending or ended) is never parked in the
+   pool: in every later state it is still with its own goroutine on the way to Close, or closed *)
+Theorem late_workconn_not_parked cfg sched1 sched2 t :
+  let s1 := pl_exec cfg sched1 in
+  ch_closed (ps_ch s1) = true -> ps_thr s1 t = TW WLookup ->
+  let s2 := pl_run cfg sched2 s1 in
+  ~ In t (ch_q (ps_ch s2)) /\ (ps_thr s2 t = TW WDone -> ps_fate s2 t = PClosed).
+Proof.
+  intros s1 Hc Ht s2.
+  assert (J : Inv s2 /\ ch_closed (ps_ch s2) = true /\
+              (ps_thr s2 t = TW WLookup \/ ps_thr s2 t = TW WSend \/ ps_thr s2 t = TW WCloseIt \/
+               (ps_thr s2 t = TW WDone /\ ps_fate s2 t = PClosed))).
+  { unfold s2. pose proof (exec_inv cfg sched1) as I. fold s1 in I. clearbody s1. clear s2.
+    revert s1 Hc Ht I. induction sched2 as [|x r IH]; intros s1 Hc Ht I; simpl; auto.
+    assert (G : forall s, Inv s -> ch_closed (ps_ch s) = true ->
+                (ps_thr s t = TW WLookup \/ ps_thr s t = TW WSend \/ ps_thr s t = TW WCloseIt \/
+                 (ps_thr s t = TW WDone /\ ps_fate s t = PClosed)) ->
+                Inv (pl_run cfg r s) /\ ch_closed (ps_ch (pl_run cfg r s)) = true /\
+                (ps_thr (pl_run cfg r s) t = TW WLookup \/ ps_thr (pl_run cfg r s) t = TW WSend \/
+                 ps_thr (pl_run cfg r s) t = TW WCloseIt \/
+                 (ps_thr (pl_run cfg r s) t = TW WDone /\ ps_fate (pl_run cfg r s) t = PClosed))).
+    { clear. induction r as [|y r IH]; intros s I Hc K; simpl; auto.
+      apply IH; [apply step_inv; auto|apply closed_stable; auto|].
+      destruct (Nat.eq_dec y t) as [->|N].
+      - unfold pl_step. destruct K as [K|[K|[K|[K Kf]]]]; rewrite K; simpl.
+        + destruct (ps_mapped s); simpl; unfold upd; rewrite Nat.eqb_refl; auto.
+        + unfold ch_try_send. rewrite Hc. simpl. unfold upd; rewrite Nat.eqb_refl; auto.
+        + unfold upd; rewrite !Nat.eqb_refl; auto.
+        + rewrite K. auto.
+      - destruct K as [K|[K|[K|[K Kf]]]].
+        + left. eapply work_thr_other; eauto.
+        + right; left. eapply work_thr_other; eauto.
+        + right; right; left. eapply work_thr_other; eauto.
+        + right; right; right. split; [eapply work_thr_other; eauto|apply closed_fate_final; auto]. }
+    apply (G (pl_step cfg s1 x)); [apply step_inv; auto|apply closed_stable; auto|].
+    destruct (Nat.eq_dec x t) as [->|N].
+    - unfold pl_step. rewrite Ht. simpl. destruct (ps_mapped s1); simpl; unfold upd; rewrite Nat.eqb_refl; auto.
+    - left. eapply work_thr_other; eauto. }
+  destruct J as [I [Hc2 K]]. split.
+  - intros Hin. apply (i_q s2 I) in Hin.
+    destruct K as [K|[K|[K|[K Kf]]]]; try congruence;
+      assert (E : pl_holds t (ps_thr s2 t) t = true) by (rewrite K; simpl; apply Nat.eqb_refl);
+      apply (i_held s2 I) in E; congruence.
+  - intros Hd. destruct K as [K|[K|[K|[K Kf]]]]; congruence.
+Qed.
+
+(* ====== StartWorkConn log ====== *)
+
+Lemma step_user_log cfg s t : Inv s ->
+  let s' := pl_step cfg s t in
+  (ps_log s' = ps_log s /\ forall u, ps_user s' u = ps_user s u \/ (ps_user s u = UOpen /\ ps_user s' u = UClosed))
+  \/ (exists i c proxy src sport eof, ps_thr s t = TU (UWrite i c) /\ pl_req_of cfg t = Some (RUser proxy src sport eof) /\
+       ps_user s t = UOpen /\ ps_fate s c = PHeld t /\
+       ps_log s' = {| st_conn := c; st_user := t; st_proxy := proxy; st_src := src; st_sport := sport |} :: ps_log s /\
+       forall u, ps_user s' u = if Nat.eqb u t then UBridged c else ps_user s u).
+Proof.
+  intros I.
+  assert (Ho : forall u p, ps_thr s u = TU p -> p <> UDone -> ps_user s u = UOpen) by apply (i_open s I).
+  unf. brk; hyp; simpl;
+  first
+  [ solve [ left; split; auto; intro; unfold upd;
+            repeat match goal with |- context [Nat.eqb ?a ?b] => destruct (Nat.eqb_spec a b); subst end; auto;
+            right; split; auto; eapply Ho; eauto; discriminate ]
+  | right; do 6 eexists; split; [reflexivity|]; split; [reflexivity|]; split;
+    [ eapply Ho; eauto; discriminate |]; split;
+    [ apply (i_held s I); match goal with E : ps_thr s t = _ |- _ => rewrite E end; simpl; apply Nat.eqb_refl |];
+    split; [reflexivity|]; intro; unfold upd; reflexivity ].
+Qed.
+
+Record LInv (cfg : pcfg) (s : pst) : Prop := {
+  l_sound : forall e, In e (ps_log s) ->
+              ps_user s (st_user e) = UBridged (st_conn e) /\
+              exists eof, pl_req_of cfg (st_user e) = Some (RUser (st_proxy e) (st_src e) (st_sport e) eof);
+  l_complete : forall u c, ps_user s u = UBridged c -> exists e, In e (ps_log s) /\ st_conn e = c /\ st_user e = u;
+  l_nodup : NoDup (map st_conn (ps_log s))
+}.
+
+Lemma linv_init cfg : LInv cfg (pl_init cfg).
+Proof.
+  constructor; simpl.
+  - intros e [].
+  - intros u c. destruct (pl_req_of cfg u) as [[]|]; discriminate.
+  - constructor.
+Qed.
+
+Lemma linv_step cfg s t : Inv s -> LInv cfg s -> LInv cfg (pl_step cfg s t).
+Proof.
+  intros I [Ls Lc Ln]. destruct (step_user_log cfg s t I) as [[El Hu]|(i & c & proxy & src & sport & eof & Et & Er & Eu & Ef & El & Hu)].
+  - constructor; rewrite El; auto.
+    + intros e Hin. destruct (Ls e Hin) as [Hb Hr]. split; auto.
+      destruct (Hu (st_user e)) as [H|[H _]]; congruence.
+    + intros u c Hb. apply Lc. destruct (Hu u) as [H|[_ H]]; congruence.
+  - constructor; rewrite El.
+    + intros e [<-|Hin]; simpl.
+      * rewrite Hu, Nat.eqb_refl. split; eauto.
+      * destruct (Ls e Hin) as [Hb Hr]. split; auto. rewrite Hu.
+        destruct (Nat.eqb_spec (st_user e) t) as [E|N]; auto. rewrite E in Hb. congruence.
+    + intros u c0. rewrite Hu. destruct (Nat.eqb_spec u t) as [->|N].
+      * intros H. inversion H; subst. eexists; split; [left; reflexivity|simpl; auto].
+      * intros H. destruct (Lc u c0 H) as [e [Hin He]]. exists e. split; [right|]; auto.
+    + simpl. constructor; auto. intros Hin. apply in_map_iff in Hin. destruct Hin as [e [Ec Hin]].
+      destruct (Ls e Hin) as [Hb _]. rewrite Ec in Hb. apply (i_bridged s I) in Hb. congruence.
+Qed.
+
+Lemma linv_exec cfg sched : LInv cfg (pl_exec cfg sched).
+Proof.
+  unfold pl_exec. generalize (init_inv cfg) (linv_init cfg). generalize (pl_init cfg).
+  induction sched as [|t r IH]; simpl; intros s I L; auto.
+  apply IH; [apply step_inv|apply linv_step]; auto.
+Qed.
+
+(* the StartWorkConn written on the connection a user is bridged to names the proxy that accepted this user
+   and the user's own address; and no connection is announced twice *)
+Theorem start_msg_names_proxy_and_user cfg sched :
+  let s := pl_exec cfg sched in
+  (forall u c, ps_user s u = UBridged c ->
+     exists e eof, In e (ps_log s) /\ st_conn e = c /\ st_user e = u /\
+       pl_req_of cfg u = Some (RUser (st_proxy e) (st_src e) (st_sport e) eof)) /\
+  (forall e, In e (ps_log s) -> ps_user s (st_user e) = UBridged (st_conn e) /\
+       exists eof, pl_req_of cfg (st_user e) = Some (RUser (st_proxy e) (st_src e) (st_sport e) eof)) /\
+  NoDup (map st_conn (ps_log s)).
+Proof.
+  intros s. destruct (linv_exec cfg sched) as [Ls Lc Ln]. fold s in Ls, Lc, Ln. repeat split; auto.
+  - intros u c Hb. destruct (Lc u c Hb) as [e [Hin [Ec Eu]]]. destruct (Ls e Hin) as [_ [eof Hr]].
+    exists e, eof. subst. auto.
+  - apply Ls; auto.
+  - apply Ls; auto.
+Qed.
+
+(* ====== hand-off ====== *)
+
+(* ---------- hand-off channels ---------- *)
+
+Definition h_fate_ok (cfg : hcfg) (thr : option hpc) (f : hfate) : Prop :=
+  match thr with
+  | Some HLookup => f = HNew
+  | Some HSendStep => f = HChosen
+  | Some HEnd => f = HAccepted \/ f = HClosedNoRoute \/ f = (if hc_close_on_fail cfg then HClosedOnFail else HLost)
+  | _ => f = HNoConn
+  end.
+
+Definition HInv (cfg : hcfg) (s : hst) : Prop := forall u, h_fate_ok cfg (hs_thr s u) (hs_fate s u).
+
+Lemma h_init_inv cfg : HInv cfg (h_init cfg).
+Proof. intros u. simpl. destruct (nth_error (hc_reqs cfg) u) as [[]|]; simpl; auto. Qed.
+
+Lemma h_step_inv cfg s t : HInv cfg s -> HInv cfg (h_step cfg s t).
+Proof.
+  intros I u. pose proof (I u) as Iu. pose proof (I t) as It. unfold h_step.
+  destruct (hs_thr s t) as [[]|] eqn:Et; simpl in It; auto.
+  - destruct (hs_routed s); simpl; unfold upd; destruct (Nat.eqb_spec u t); subst; simpl; auto.
+  - destruct (hs_chclosed s); [|destruct (hs_receiving s)]; simpl; unfold upd; auto;
+      destruct (Nat.eqb_spec u t); subst; simpl; auto.
+  - simpl; unfold upd; destruct (Nat.eqb_spec u t); subst; simpl; auto.
+  - destruct (hc_chan_first cfg); simpl; unfold upd; destruct (Nat.eqb_spec u t); subst; simpl; auto.
+  - destruct (hc_chan_first cfg); simpl; unfold upd; destruct (Nat.eqb_spec u t); subst; simpl; auto.
+Qed.
+
+Lemma h_exec_inv cfg sched : HInv cfg (h_exec cfg sched).
+Proof.
+  unfold h_exec. generalize (h_init_inv cfg). generalize (h_init cfg).
+  induction sched as [|t r IH]; simpl; intros s I; auto. apply IH, h_step_inv, I.
+Qed.
+
+(* with the repaired call sites no user connection is ever dropped unclosed, whatever the interleaving
+   of dispatchers and the closing listener *)
+Theorem handoff_never_lost cfg sched u :
+  hc_close_on_fail cfg = true -> hs_fate (h_exec cfg sched) u <> HLost.
+Proof.
+  intros Hc. pose proof (h_exec_inv cfg sched u) as I. unfold h_fate_ok in I. rewrite Hc in I.
+  destruct (hs_thr (h_exec cfg sched) u) as [[]|]; try congruence.
+  destruct I as [I|[I|I]]; congruence.
+Qed.
+
+Theorem handoff_accepted_or_closed cfg sched u :
+  hc_close_on_fail cfg = true -> hs_thr (h_exec cfg sched) u = Some HEnd ->
+  let f := hs_fate (h_exec cfg sched) u in f = HAccepted \/ f = HClosedNoRoute \/ f = HClosedOnFail.
+Proof.
+  intros Hc Ht. pose proof (h_exec_inv cfg sched u) as I. unfold h_fate_ok in I. rewrite Hc, Ht in I. exact I.
+Qed.
+
+(* a dispatcher whose turn comes is never stuck for ever once the closer has finished: its send step ends *)
+Theorem handoff_send_progress cfg s t :
+  hs_thr s t = Some HSendStep -> (hs_chclosed s = true \/ hs_receiving s = true) ->
+  hs_thr (h_step cfg s t) t = Some HEnd.
+Proof.
+  intros Ht H. unfold h_step. rewrite Ht.
+  destruct (hs_chclosed s); [|destruct H as [H|H]; [discriminate|rewrite H]]; simpl; unfold upd; rewrite Nat.eqb_refl; auto.
+Qed.
